@@ -22,7 +22,7 @@ p = subprocess.run(["/venv/bin/python", "-m", "pytest", "-q", "-p", "no:cachepro
 passed = set()
 for tc in ET.parse(out).getroot().iter("testcase"):
     if not any(c.tag in ("failure", "error", "skipped") for c in tc):
-        passed.add(tc.get("classname") + "::" + tc.get("name"))
+        passed.add((tc.get("classname") or "") + "::" + (tc.get("name") or ""))
 os.remove(out)
 for junk in ("model.bif",):
     try: os.remove(os.path.join(d, junk))
@@ -43,7 +43,7 @@ if missing and not extra and len(missing) <= 60:
     try:
         for tc in ET.parse(out2).getroot().iter("testcase"):
             if not any(c.tag in ("failure", "error", "skipped") for c in tc):
-                passed.add(tc.get("classname") + "::" + tc.get("name"))
+                passed.add((tc.get("classname") or "") + "::" + (tc.get("name") or ""))
         os.remove(out2)
     except Exception as e:
         print("serial re-run failed", e)
